@@ -11,7 +11,6 @@ written optionality.
 """
 from __future__ import annotations
 
-import itertools
 import os
 
 from vlib.e2 import c14 as M
@@ -96,6 +95,24 @@ def ncases(tier):
 
 def setup_shard(ctx):
     M.setup_shard(ctx)
+
+
+def finalize(merged, tier):
+    """The box is enumerated completely unless the run was truncated."""
+    done = merged['counters'].get('box_elements', 0)
+    total = len(box())
+    cov = {'exhaustive': done == total and not merged['truncated'],
+           'exhaustive_space': (
+               f'{len(G.FAMILY_QUALIFIERS)} family qualifiers x sizes '
+               f'{list(SIZES)} x {len(CONTEXTS)} contexts x offsets '
+               f'{list(OFFSETS)} x required/optional marking = {total} '
+               f'elements (GraphParser route: all; WorkflowConfig route: '
+               f'{"all shapes" if tier == "thorough" else "one shape each"})'),
+           'box_elements_done': done, 'box_elements_total': total}
+    res = {'coverage': cov}
+    if done != total:
+        res['inconclusive'] = f'box only {done}/{total} enumerated'
+    return res
 
 
 # -- building one box element ----------------------------------------------
